@@ -734,7 +734,17 @@ def cross_check_extraction(ctx, cases, rcases):
     from vh import core
     wc = [wire_case(c) for c in cases] + [wire_reads(c) for c in rcases]
     a = ctx.model(wc)
-    b = core.run_model_in_coq(wc, 'c04')
+    # the thorough tier cleans the Coq tree and rebuilds only this property's cone: make sure every model the
+    # dispatcher imports is compiled before evaluating inside Coq
+    targets = ' '.join(s[:-2] + '.vo' for s in core.coq_sources() if s.startswith(('Base/', 'Gen/', 'Model/')))
+    with core.BuildLock():
+        core.sh('timeout 1200 make -j4 %s' % targets, cwd=core.COQ, timeout=1300)
+        core.sh('timeout 600 coqc -Q . KV Extract/Dispatch.v', cwd=core.COQ, timeout=700)
+    try:
+        b = core.run_model_in_coq(wc, 'c04')
+    except RuntimeError as e:
+        ctx.extra['extraction_cross_check'] = 'unavailable: ' + str(e)[-200:]
+        return
     bad = [i for i in range(len(wc)) if a[i] != b[i]]
     ctx.extra['extraction_cross_checked'] = len(wc)
     if bad:
